@@ -91,6 +91,14 @@ theorem machine_lazy_routing_correct_on_the_sequential_map (ops : List Op) (hv :
       forget (toResult (Spec.route ((runSpec [] ops).1.routesOf m) hostPort path)) := by
   rw [machine_lazy_agrees, machine_routing_correct_on_the_sequential_map ops hv hu m hostPort path hn hs]
 
+/-- **A lazy lookup records nothing** (C12: the Allow loops run on the request's own pooled context and must not expose
+    anything in it): the lazy `lookupByPath` never appends to the parameter buffer and never advances `paramCnt`, so every
+    re-slice `(*c.params)[:skipped.paramCnt]` on backtracking is a genuine truncation; started on the emptied buffer it
+    reports no parameter at all. (`lazy_trunc_all`: by induction over the machine's recursion, 27 cases.) -/
+theorem machine_lazy_records_nothing (target : Node) (path : Bytes) (r : Route) (ps : Binds) (t : Bool)
+    (h : Machine.lookupByPath target path [] true = .found r ps t) : ps = [] :=
+  lookupByPath_lazy_records_nothing target path r ps t h
+
 end Fox.C01
 
 /-! ### non-vacuity: the machine really backtracks, truncates and keeps a trailing-slash candidate on concrete trees -/
